@@ -119,7 +119,13 @@ void* operator new[](size_t n) { return operator new(n); }
 void* operator new(size_t n, std::align_val_t al) {
   if (g_track && t_api && vrt_tid() >= 0) {
     void* p = arena_alloc(n, (size_t)al, true);
-    vrt_event("new %d %zu @%llu", find_alloc(p)->id, n, (unsigned long long)vrt_now());
+    int id = find_alloc(p)->id;
+    vrt_event("new %d %zu @%llu", id, n, (unsigned long long)vrt_now());
+    // happens-before race monitor: plain accesses to blocks (element payload) and to table entries must be
+    // ordered by the release / acquire edges the code really has (publication through `_block_table`)
+    char nm[24];
+    snprintf(nm, sizeof nm, "a%d", id);
+    vrt_payload(p, n, nm);
     return p;
   }
   void* p = aligned_alloc((size_t)al, (n + (size_t)al - 1) / (size_t)al * (size_t)al);
